@@ -1,8 +1,9 @@
 package types
 
 import (
+	"fmt"
 	"math/big"
-	"strconv"
+	"strings"
 )
 
 const (
@@ -16,6 +17,22 @@ const (
 	NundPow = 1e-9 // multiplier for converting from (nano) nund to und
 )
 
+// undPowRat is UndPow as an exact rational
+var undPowRat = big.NewRat(UndPow, 1)
+
+// parseDecimalAmount parses a decimal amount exactly. Binary floating point cannot represent
+// most decimal fractions (e.g. 515.05) and has only ~15 significant digits.
+func parseDecimalAmount(amount string) (*big.Rat, error) {
+	if strings.Contains(amount, "/") {
+		return nil, fmt.Errorf("invalid amount %q", amount)
+	}
+	r, ok := new(big.Rat).SetString(amount)
+	if !ok {
+		return nil, fmt.Errorf("invalid amount %q", amount)
+	}
+	return r, nil
+}
+
 func ConvertUndDenomination(amount string, from string, to string) (string, error) {
 
 	if from == to {
@@ -24,23 +41,21 @@ func ConvertUndDenomination(amount string, from string, to string) (string, erro
 
 	switch from {
 	case FundDenom: // from und to nund
-		fromAmt, err := strconv.ParseFloat(amount, 64)
+		fromAmt, err := parseDecimalAmount(amount)
 		if err != nil {
 			return "", err
 		}
-		fromAmtBf := new(big.Float).SetFloat64(fromAmt)
-		res := fromAmtBf.Mul(fromAmtBf, big.NewFloat(UndPow))
-		result := new(big.Int)
-		res.Int(result)
+		res := fromAmt.Mul(fromAmt, undPowRat)
+		// whole number of nund, truncated towards zero
+		result := new(big.Int).Quo(res.Num(), res.Denom())
 		return result.String() + to, nil
 	case NundDenom: // from nund to fund
-		fromAmt, err := strconv.ParseFloat(amount, 64)
+		fromAmt, err := parseDecimalAmount(amount)
 		if err != nil {
 			return "", err
 		}
-		fromAmtBf := new(big.Float).SetFloat64(fromAmt)
-		res := fromAmtBf.Mul(fromAmtBf, big.NewFloat(NundPow))
-		return res.Text('f', 9) + to, nil
+		res := fromAmt.Quo(fromAmt, undPowRat)
+		return res.FloatString(9) + to, nil
 	}
 
 	return "", nil
